@@ -3,13 +3,14 @@
 # (used while other work is building from /repo; the recorded runs apply the patch to /repo itself).
 # The evidence file of the check is saved and restored: evidence must only ever describe runs against /repo.
 N=$1; ID=$2; TIER=${3:-quick}
+V=$(cd "$(dirname "$0")/.." && pwd)
 M=/tmp/mut_$$; mkdir -p $M; cp -r /repo/src $M/src; cp /repo/.clang-format $M/ 2>/dev/null
-( cd $M && git init -q . 2>/dev/null; patch -p1 -s < /verif/seeded/$N/patch.diff ) || { echo "patch failed"; rm -rf $M; exit 2; }
-cd /verif
+( cd $M && git init -q . 2>/dev/null; patch -p1 -s < $V/seeded/$N/patch.diff ) || { echo "patch failed"; rm -rf $M; exit 2; }
+cd $V
 [ -f evidence/$ID.json ] && cp evidence/$ID.json $M/evidence_saved.json
 VERIF_REPO=$M ./check $ID --tier $TIER; RC=$?
 [ -f $M/evidence_saved.json ] && cp $M/evidence_saved.json evidence/$ID.json
 rm -rf $M
 # restore generated files for the real repo
-python3 /verif/tools/translate.py --repo /repo >/dev/null
+python3 $V/tools/translate.py --repo /repo >/dev/null
 echo "rc=$RC"
